@@ -195,7 +195,7 @@ func VerifC17Env() {
 	inOS := vrtChoice("inOS", 2) == 1
 	in1 := vrtChoice("inEnv1", 2) == 1
 	in2 := vrtChoice("inEnv2", 2) == 1
-	v := vrtString("v", vrtParam("VL", 1), "ab")
+	v := vrtString("v", vrtParam("VL", 1), "ab=")
 	var explicitEnv []string
 	explicitEmpty := false
 	if inExplicit {
